@@ -153,3 +153,309 @@ Proof.
   unfold others, has, real in *. cbn [flat_map existsb]. unfold proj, tk, is_kind.
   destruct (t_e t) as [| |a d]; try discriminate Ht; cbn [app orb andb]; repeat split; try assumption; intros k; apply IH2.
 Qed.
+
+(* ---- action lists that may end with pass or break ------------------------------------------------------------- *)
+Definition fold_app (acts : list act) (o : nat) (ins : list nat) (ml : list tentry) : list tentry :=
+  fold_left (fun ml a => append ml a o ins) acts ml.
+
+Lemma others_fold acts o ins : forall ml, others (fold_app acts o ins ml) = others ml ++ filter other_act acts.
+Proof.
+  unfold fold_app. induction acts as [|a r IH]; intros ml; cbn [fold_left filter]; [rewrite app_nil_r; reflexivity|].
+  rewrite IH, others_append, <- app_assoc. destruct (other_act a); reflexivity.
+Qed.
+
+Lemma has_fold k acts o ins : (forall b, k b = true -> k_move b = false /\ k_flag b = false) ->
+  forall ml, has k (fold_app acts o ins ml) = has k ml || existsb k acts.
+Proof.
+  intros Hk. unfold fold_app. induction acts as [|a r IH]; intros ml; cbn [fold_left existsb]; [rewrite orb_false_r; reflexivity|].
+  rewrite IH, (has_append k _ _ _ _ Hk), orb_assoc. reflexivity.
+Qed.
+
+Lemma real_fold acts o ins : forall ml, real (fold_app acts o ins ml) = real ml || existsb (fun a => negb (k_pass a)) acts.
+Proof.
+  unfold fold_app. induction acts as [|a r IH]; intros ml; cbn [fold_left existsb]; [rewrite orb_false_r; reflexivity|].
+  rewrite IH, real_append, orb_assoc. reflexivity.
+Qed.
+
+Lemma compile_acts_from_app a b : forall e0, compile_acts_from e0 (a ++ b) = compile_acts_from (compile_acts_from e0 a) b.
+Proof. induction a as [|x r IH]; intros e0; cbn [app compile_acts_from]; [reflexivity|apply IH]. Qed.
+
+Definition ends_pass (acts : list act) : bool := ends_with k_pass acts.
+Definition pass_only_last (acts : list act) : bool := forallb (fun a => negb (k_pass a)) (removelast acts).
+
+Lemma eval_acts2 acts e env cur ins ml st : compile_acts acts = Some e -> pass_only_last acts = true ->
+  eval e env cur ins ml st = (if ends_pass acts then NoMatch else Match, fold_app acts cur ins ml, st).
+Proof.
+  intros Hc Hp. destruct acts as [|a r]; [discriminate Hc|]. injection Hc as <-.
+  destruct (exists_last (l := a :: r) ltac:(discriminate)) as (body & z & E).
+  assert (Hrl : removelast (a :: r) = body) by (rewrite E; apply removelast_last).
+  unfold pass_only_last in Hp. rewrite Hrl in Hp.
+  assert (Hend : ends_pass (a :: r) = k_pass z) by (unfold ends_pass, ends_with; rewrite E, rev_unit; reflexivity).
+  rewrite Hend. unfold fold_app.
+  destruct body as [|b0 body'].
+  - cbn [app] in E. injection E as -> ->. cbn [compile_acts_from eval fold_left]. destruct z; reflexivity.
+  - cbn [app] in E. injection E as -> ->.
+    rewrite compile_acts_from_app. cbn [compile_acts_from]. cbn [eval].
+    cbn [forallb] in Hp. apply andb_prop in Hp. destruct Hp as [Hb0 Hb].
+    rewrite (eval_acts_chain body' (EAct b0) env cur ins ml (append ml b0 cur ins) st st Hb).
+    + cbn [fold_left]. rewrite fold_left_app. cbn [fold_left]. destruct z; reflexivity.
+    + cbn [eval]. destruct b0; try reflexivity. discriminate Hb0.
+Qed.
+
+(* ---- rules ------------------------------------------------------------------------------------------------------ *)
+Definition marker (acts : list act) : nat :=          (* 0 none, 1 pass, 2 break *)
+  match rev acts with XPass :: _ => 1 | XBreak :: _ => 2 | _ => 0 end.
+Definition body_of (acts : list act) : list act := match marker acts with O => acts | _ => removelast acts end.
+
+Definition flat2_rule (r : rule) : bool :=
+  match r with
+  | RActs c acts => posc c && negb (match acts with [] => true | _ => false end) && forallb plain_act (body_of acts)
+  | RBlock _ _ => false
+  end.
+
+Lemma acts_split acts : acts <> [] ->
+  acts = body_of acts ++ match marker acts with 1 => [XPass] | 2 => [XBreak] | _ => [] end.
+Proof.
+  intros Hne. destruct (exists_last Hne) as (b & z & E). unfold body_of, marker. rewrite E, rev_unit, removelast_last.
+  destruct z; cbn; rewrite ?app_nil_r; reflexivity.
+Qed.
+
+Lemma plain_facts body : forallb plain_act body = true ->
+  existsb k_pass body = false /\ existsb k_break body = false /\ forallb (fun a => negb (k_pass a)) body = true /\
+  existsb (fun a => negb (k_pass a)) body = negb (match body with [] => true | _ => false end).
+Proof.
+  induction body as [|a r IH]; intros H; [repeat split; reflexivity|].
+  cbn [forallb] in H. apply andb_prop in H. destruct H as [Ha Hr]. destruct (IH Hr) as (I1 & I2 & I3 & I4).
+  unfold plain_act in Ha. apply negb_true_iff in Ha. apply orb_false_elim in Ha. destruct Ha as [Hp Hb].
+  cbn [existsb forallb]. rewrite Hp, Hb, I1, I2, I3. repeat split; reflexivity.
+Qed.
+
+(* the state of the list relevant for the block's decision *)
+Record lstate := mkls { ls_others : list act; ls_pass : bool; ls_break : bool; ls_real : bool }.
+Definition state_of (ml : list tentry) : lstate := mkls (others ml) (has k_pass ml) (has k_break ml) (real ml).
+
+Lemma kpass_loc b : k_pass b = true -> k_move b = false /\ k_flag b = false.
+Proof. destruct b; cbn; intros H; try discriminate H; split; reflexivity. Qed.
+Lemma kbreak_loc b : k_break b = true -> k_move b = false /\ k_flag b = false.
+Proof. destruct b; cbn; intros H; try discriminate H; split; reflexivity. Qed.
+
+Lemma eval_flat2_rule c acts env cur ins ml st : flat2_rule (RActs c acts) = true ->
+  exists ml', eval (compile_rule (RActs c acts)) env cur ins ml st =
+              ((if sem c env then (if Nat.eqb (marker acts) 1 then NoMatch else Match) else NoMatch), ml', st) /\
+    state_of ml' =
+    if sem c env
+    then mkls (others ml ++ filter other_act (body_of acts))
+              (has k_pass ml || Nat.eqb (marker acts) 1) (has k_break ml || Nat.eqb (marker acts) 2)
+              (real ml || negb (match body_of acts with [] => true | _ => false end) || Nat.eqb (marker acts) 2)
+    else state_of ml.
+Proof.
+  intros Hf. cbn [flat2_rule] in Hf. apply andb_prop in Hf. destruct Hf as [Hf Hpl]. apply andb_prop in Hf. destruct Hf as [Hpos Hne].
+  assert (Hacts : acts <> []) by (destruct acts; [discriminate Hne|discriminate]).
+  cbn [compile_rule]. destruct (compile_acts acts) as [e|] eqn:Ec; [|destruct acts; [contradiction|discriminate Ec]].
+  cbn [eval].
+  destruct (eval_cond_pos c env Hpos cur ins (ml ++ [mkt MSentinel cur ins]) st) as (pats & Hn & Ecnd). rewrite Ecnd.
+  destruct (no_actions_others pats Hn) as (Po & Ph & Pr).
+  assert (Hbase : state_of ((ml ++ [mkt MSentinel cur ins]) ++ pats) = state_of ml).
+  { unfold state_of. rewrite !others_app, !has_app, !real_app, Po, !Ph, Pr. cbn. rewrite !app_nil_r, !orb_false_r. reflexivity. }
+  destruct (sem c env); cbn [ev_of].
+  2:{ eexists. split; [reflexivity|exact Hbase]. }
+  pose proof (acts_split acts Hacts) as Hsplit.
+  destruct (plain_facts _ Hpl) as (B1 & B2 & B3 & B4).
+  assert (Hpol : pass_only_last acts = true).
+  { unfold pass_only_last. destruct (marker acts) as [|[|[|m]]] eqn:Em; unfold body_of in *; rewrite Em in *.
+    - (* no marker: acts = body, all plain *)
+      clear -B3. induction acts as [|a r IH]; [reflexivity|]. cbn [forallb] in B3. apply andb_prop in B3. destruct B3 as [Ha Hr].
+      destruct r as [|b r']; [reflexivity|]. cbn [removelast forallb]. rewrite Ha. apply IH. exact Hr.
+    - exact B3.
+    - exact B3.
+    - unfold marker in Em. destruct (rev acts) as [|[]]; discriminate Em. }
+  rewrite (eval_acts2 acts e env cur ins _ st Ec Hpol).
+  assert (Hep : ends_pass acts = Nat.eqb (marker acts) 1).
+  { unfold ends_pass, ends_with, marker. destruct (rev acts) as [|[] ?]; reflexivity. }
+  rewrite Hep. eexists. split; [reflexivity|].
+  unfold state_of. rewrite others_fold, (has_fold k_pass _ _ _ kpass_loc), (has_fold k_break _ _ _ kbreak_loc), real_fold.
+  injection Hbase as H1 H2 H3 H4. rewrite H1, H2, H3, H4.
+  rewrite Hsplit at 1 2 3 4.
+  rewrite filter_app, !existsb_app, B1, B2.
+  destruct (marker acts) as [|[|[|m]]] eqn:Em;
+    [| | |unfold marker in Em; destruct (rev acts) as [|[]]; discriminate Em];
+    cbn [filter other_act existsb k_pass k_break negb app Nat.eqb orb];
+    rewrite ?app_nil_r, ?orb_false_r, ?B4;
+    destruct (real ml), (has k_pass ml), (has k_break ml), (match body_of acts with [] => true | _ => false end); reflexivity.
+Qed.
+
+(* ---- the documented semantics of such a block, as a plain recursion ---------------------------------------------- *)
+Inductive fres := FMatched (acc : list act) (passed : bool) | FBroken | FFall (acc : list act) (passed : bool).
+
+Fixpoint fsem (rs : list rule) (env : nat -> bool) (acc : list act) (passed : bool) : fres :=
+  match rs with
+  | [] => FFall acc passed
+  | RActs c acts :: t =>
+      if sem c env then
+        match marker acts with
+        | 1 => fsem t env (acc ++ body_of acts) true
+        | 2 => FBroken
+        | _ => FMatched (acc ++ body_of acts) passed
+        end
+      else fsem t env acc passed
+  | RBlock _ _ :: _ => FFall acc passed
+  end.
+
+Definition isnil {A} (l : list A) : bool := match l with [] => true | _ => false end.
+
+Definition Inv (ml : list tentry) (acc : list act) (passed : bool) : Prop :=
+  state_of ml = mkls (filter other_act acc) passed false (negb (isnil acc)).
+
+Lemma isnil_app {A} (a b : list A) : isnil (a ++ b) = isnil a && isnil b.
+Proof. destruct a; reflexivity. Qed.
+
+Lemma eval_flat2_rules rs : forall env cur ins ml st acc passed,
+  Inv ml acc passed -> forallb flat2_rule rs = true -> rs <> [] ->
+  exists v ml', eval (match rs with r :: t => chain (compile_rule r) t | [] => EAll end) env cur ins ml st = (v, ml', st) /\
+    match fsem rs env acc passed with
+    | FMatched acc' p' => v = Match /\ Inv ml' acc' p' /\ acc' <> []
+    | FBroken => v = Match /\ has k_break ml' = true
+    | FFall acc' p' => v = NoMatch /\ Inv ml' acc' p'
+    end.
+Proof.
+  induction rs as [|r t IH]; intros env cur ins ml st acc passed HI Hf Hne; [contradiction|].
+  cbn [forallb] in Hf. apply andb_prop in Hf. destruct Hf as [Hr Ht].
+  destruct r as [c acts|c sub]; [|discriminate Hr].
+  destruct (eval_flat2_rule c acts env cur ins ml st Hr) as (ml1 & E1 & S1).
+  rewrite eval_chain, E1. cbn [fsem].
+  assert (Hbody : marker acts = 0 -> body_of acts <> []).
+  { intros Hm. unfold body_of. rewrite Hm. cbn [flat2_rule] in Hr. apply andb_prop in Hr. destruct Hr as [Hr _].
+    apply andb_prop in Hr. destruct Hr as [_ Hr]. destruct acts; [discriminate Hr|discriminate]. }
+  unfold Inv in HI. injection HI as I1 I2 I3 I4.
+  destruct (sem c env).
+  - rewrite I1, I2, I3, I4 in S1.
+    destruct (marker acts) as [|[|[|m]]] eqn:Em; cbn [Nat.eqb] in *.
+    + (* a plain rule: the block stops here *)
+      exists Match, ml1. split; [reflexivity|]. split; [reflexivity|]. split.
+      * unfold Inv. rewrite S1, filter_app, isnil_app, !orb_false_r.
+        destruct (body_of acts) eqn:Eb; [exfalso; apply (Hbody eq_refl); reflexivity|].
+        cbn [isnil andb negb]. rewrite andb_false_r, orb_true_r. reflexivity.
+      * intros H. apply app_eq_nil in H. destruct H as [_ H]. apply (Hbody eq_refl). exact H.
+    + (* pass: keep going *)
+      assert (HI' : Inv ml1 (acc ++ body_of acts) true).
+      { unfold Inv. rewrite S1, filter_app, isnil_app, !orb_false_r, orb_true_r. cbn [orb]. unfold isnil.
+        destruct acc, (body_of acts); reflexivity. }
+      destruct t as [|r2 t2].
+      * exists NoMatch, ml1. split; [reflexivity|]. cbn [fsem]. split; [reflexivity|exact HI'].
+      * destruct (IH env cur ins ml1 st _ _ HI' Ht ltac:(discriminate)) as (v & ml2 & E2 & R2).
+        exists v, ml2. split; [exact E2|exact R2].
+    + exists Match, ml1. split; [reflexivity|]. split; [reflexivity|].
+      injection S1 as _ _ S3 _. rewrite S3. reflexivity.
+    + exfalso. unfold marker in Em. destruct (rev acts) as [|[]]; discriminate Em.
+  - assert (HI' : Inv ml1 acc passed) by (unfold Inv; rewrite S1; unfold state_of; rewrite I1, I2, I3, I4; reflexivity).
+    destruct t as [|r2 t2].
+    + exists NoMatch, ml1. split; [reflexivity|]. cbn [fsem]. split; [reflexivity|exact HI'].
+    + destruct (IH env cur ins ml1 st _ _ HI' Ht ltac:(discriminate)) as (v & ml2 & E2 & R2).
+      exists v, ml2. split; [exact E2|exact R2].
+Qed.
+
+(* ---- the same recursion is what spec_rules (the documented semantics) computes on such blocks ------------------- *)
+Lemma filter_plain_id body : forallb plain_act body = true -> plain_acts body = body.
+Proof.
+  unfold plain_acts. induction body as [|a r IH]; intros H; [reflexivity|].
+  cbn [forallb] in H. apply andb_prop in H. destruct H as [Ha Hr]. cbn [filter].
+  unfold plain_act in Ha. rewrite Ha. rewrite (IH Hr). reflexivity.
+Qed.
+
+Lemma flat2_spec_facts c acts : flat2_rule (RActs c acts) = true ->
+  plain_acts acts = body_of acts /\ ends_with k_pass acts = Nat.eqb (marker acts) 1 /\
+  (ends_with k_pass acts = false -> existsb k_break acts = Nat.eqb (marker acts) 2).
+Proof.
+  intros Hf. cbn [flat2_rule] in Hf. apply andb_prop in Hf. destruct Hf as [Hf Hpl]. apply andb_prop in Hf. destruct Hf as [_ Hne].
+  assert (Hacts : acts <> []) by (destruct acts; [discriminate Hne|discriminate]).
+  pose proof (acts_split acts Hacts) as Hs. destruct (plain_facts _ Hpl) as (B1 & B2 & _ & _).
+  split; [|split].
+  - rewrite Hs at 1. unfold plain_acts. rewrite filter_app. fold (plain_acts (body_of acts)). rewrite (filter_plain_id _ Hpl).
+    destruct (marker acts) as [|[|[|m]]]; cbn; rewrite ?app_nil_r; reflexivity.
+  - unfold ends_with, marker. destruct (rev acts) as [|[] ?]; reflexivity.
+  - intros _. rewrite Hs at 1. rewrite existsb_app, B2.
+    destruct (marker acts) as [|[|[|m]]] eqn:Em; try reflexivity.
+Qed.
+
+Lemma spec_fsem rs env : forallb flat2_rule rs = true -> forall fuel acc passed, (length rs < fuel)%nat ->
+  match fsem rs env acc passed with
+  | FMatched a p => spec_rules fuel rs env acc passed = (a, BMatched)
+  | FBroken => snd (spec_rules fuel rs env acc passed) = BBroken
+  | FFall a p => spec_rules fuel rs env acc passed = (a, BFellThrough p)
+  end.
+Proof.
+  induction rs as [|r t IH]; intros Hf fuel acc passed Hl.
+  - destruct fuel; reflexivity.
+  - destruct fuel as [|f]; [cbn [length] in Hl; lia|].
+    cbn [forallb] in Hf. apply andb_prop in Hf. destruct Hf as [Hr Ht].
+    destruct r as [c acts|c sub]; [|discriminate Hr].
+    destruct (flat2_spec_facts c acts Hr) as (P1 & P2 & P3).
+    cbn [fsem spec_rules]. destruct (sem c env); cbn [negb].
+    + rewrite P2. destruct (marker acts) as [|[|[|m]]] eqn:Em; cbn [Nat.eqb] in *.
+      * rewrite (P3 P2). rewrite P1. reflexivity.
+      * rewrite P1. apply IH; [exact Ht|cbn [length] in Hl; lia].
+      * rewrite (P3 P2). reflexivity.
+      * exfalso. unfold marker in Em. destruct (rev acts) as [|[]]; discriminate Em.
+    + apply IH; [exact Ht|cbn [length] in Hl; lia].
+Qed.
+
+Lemma rules_size_gt rs : (length rs < rules_size rs)%nat.
+Proof.
+  unfold rules_size. induction rs as [|r t IH]; cbn [length fold_right]; [lia|].
+  assert (1 <= rule_size r)%nat by (destruct r; cbn; lia). lia.
+Qed.
+
+(* what is observed of the entries handed to matches_exec *)
+Definition others_e (l : list entry) : list act :=
+  flat_map (fun e => match e with MAct a _ => if other_act a then [a] else [] | _ => [] end) l.
+
+Lemma others_e_actions ml : others_e (filter is_action (map t_e ml)) = others ml.
+Proof.
+  induction ml as [|t r IH]; [reflexivity|]. cbn [map filter]. unfold others in *. cbn [flat_map]. unfold proj at 1.
+  destruct (t_e t) as [| |a d]; cbn [is_action]; [exact IH|exact IH|]. cbn [others_e flat_map]. fold (others_e (filter is_action (map t_e r))).
+  rewrite IH. reflexivity.
+Qed.
+
+Lemma others_nopass ml : others (filter (fun t => negb (tk k_pass t)) ml) = others ml.
+Proof.
+  unfold others. induction ml as [|t r IH]; [reflexivity|]. cbn [filter flat_map].
+  destruct (tk k_pass t) eqn:E; cbn [negb flat_map]; [|rewrite IH; reflexivity].
+  rewrite IH. unfold proj, tk, is_kind in *. destruct (t_e t) as [| |a d]; try reflexivity. destruct a; try discriminate E; reflexivity.
+Qed.
+
+(* First match wins, pass keeps the rule's actions and continues, break abandons the block: for every block of plain
+   rules (conditions without negation, action lists that may end with pass or break) the actions other than move and
+   flag that mdsort performs are exactly those the documented semantics selects, in the same order, and something is
+   done iff the documented semantics does something. *)
+Theorem flat_pass_break rs env : forallb flat2_rule rs = true ->
+  option_map others_e (run_rules rs env) = option_map (filter other_act) (spec_run rs env).
+Proof.
+  intros Hf. unfold run_rules, spec_run, compile.
+  pose proof (spec_fsem rs env Hf (rules_size rs) [] false (rules_size_gt rs)) as Hs.
+  destruct rs as [|r t].
+  - reflexivity.
+  - cbn [compile_rules_from]. rewrite compile_rules_chain.
+    assert (HI0 : Inv [] [] false) by reflexivity.
+    destruct (eval_flat2_rules (r :: t) env 1 [1] [] (mkev 2 false false false) [] false HI0 Hf ltac:(discriminate))
+      as (v & ml' & Ev & R).
+    cbn [eval ev0 next_id ev_t1 ev_t2 ev_t3]. rewrite Ev.
+    fold (has k_break ml'). fold (has k_pass ml').
+    destruct (fsem (r :: t) env [] false) as [acc' p'|  |acc' p'].
+    + destruct R as (-> & HI & Hne). rewrite Hs. unfold Inv in HI. injection HI as I1 I2 I3 I4.
+      rewrite I3, I2. destruct p'.
+      * pose proof (acts_left_real ml') as Hn. rewrite I4 in Hn.
+        destruct acc' as [|a0 r0]; [contradiction|]. cbn [isnil negb] in Hn.
+        destruct (acts_left (filter (fun t0 => negb (tk k_pass t0)) ml')) eqn:En; [discriminate Hn|].
+        cbn [option_map]. rewrite others_e_actions, others_nopass, I1. reflexivity.
+      * cbn [option_map]. rewrite others_e_actions, I1. reflexivity.
+    + destruct R as (-> & Hb). rewrite Hb. destruct (spec_rules (rules_size (r :: t)) (r :: t) env [] false) as [a b].
+      cbn [snd] in Hs. subst b. reflexivity.
+    + destruct R as (-> & HI). rewrite Hs. unfold Inv in HI. injection HI as I1 I2 I3 I4.
+      rewrite I3, I2. destruct p'.
+      * pose proof (acts_left_real ml') as Hn. rewrite I4 in Hn.
+        destruct acc' as [|a0 r0]; cbn [isnil negb] in Hn.
+        -- destruct (acts_left (filter (fun t0 => negb (tk k_pass t0)) ml')) eqn:En; [reflexivity|discriminate Hn].
+        -- destruct (acts_left (filter (fun t0 => negb (tk k_pass t0)) ml')) eqn:En; [discriminate Hn|].
+           cbn [option_map]. rewrite others_e_actions, others_nopass, I1. reflexivity.
+      * reflexivity.
+Qed.
